@@ -2,40 +2,74 @@
   Props/C02 — "A correct validator never equivocates, even across crashes; everything broadcast is
   durably remembered before it is sent".
 
-  Full statements (DESIGN §6 C02), NOT proved yet for the transcribed machine (Model/C01):
-    no_equivocation     : for every event sequence with `crash cut k` / `start` anywhere,
-                          `sentOf (run s0 evs).eff` contains no two votes with equal (type,h,r) and
-                          different value, and no two different proposals with equal (h,r);
-    durable_before_send : for every prefix p of `(run s0 evs).eff`, every message in `sentOf p` is in
-                          `walDurable .round p`.
-  Proved here: the restart half of the argument (`restart_dominates_own_votes_partial`): for ANY
-  durable round-WAL content, applyRoundWAL restores a (round, step) at or after every own vote in it,
-  and never moves backwards while replaying.  Both full statements are evaluated as oracles on the
-  real engine on every generated history (crashes between events and inside events).
+  The machine is Model/C01 (transcribed from consensus.go).  A history is ANY list of events:
+  proposals, block parts, votes of anybody (equivocating ones included), timeouts, BlockManager
+  callbacks delayed arbitrarily, `crash cut k` and `start` anywhere.  `crash cut k` kills the process
+  at effect boundary `cut` of the trace (everything after it never happened: any point between / inside
+  the WAL write, the WAL sync and the send of sendVote / sendProposal) and lets `k` unsynced records
+  of every WAL survive (any prefix of the unsynced records: a torn last record is cut off by the
+  reader — C03 `recover_prefix`).  `start` is the code's applyRoundWAL + applyLockWAL + applyCommitWAL
+  + Start dispatch on whatever survived.
 -/
-import Goloop.Proofs.C01G1
+import Goloop.Proofs.C02Restart
 namespace Goloop.C02.Props
 open Goloop.C01
 
-/-- **No equivocation while running** (partial for C02: crash/restart not covered, proposals not
-    covered).  For every crash-free event sequence — any interleaving of proposals, block parts, votes
-    of the others (equivocating ones included), timeouts and delayed BlockManager callbacks — two votes
-    the validator signed for the same (height, round, type) are the same vote. -/
-theorem no_equivocation_nocrash_partial (n me : Nat) (evs : List Event) (hn : ∀ e ∈ evs, e.noCrash)
-    (v w : VoteRec)
-    (hv : Msg.vote v ∈ sentOf (run (start { n := n, me := me }) evs).eff)
-    (hw : Msg.vote w ∈ sentOf (run (start { n := n, me := me }) evs).eff)
+/-- **No vote equivocation, crashes and restarts anywhere.**  Over the whole history two votes the
+    validator signed for the same (height, round, type) are the same vote. -/
+theorem no_equivocation_votes (n me : Nat) (evs : List Event) (v w : VoteRec)
+    (hv : Msg.vote v ∈ sentOf (run { n := n, me := me } evs).eff)
+    (hw : Msg.vote w ∈ sentOf (run { n := n, me := me } evs).eff)
     (hh : v.height = w.height) (hr : v.round = w.round) (ht : v.typ = w.typ) : v = w :=
-  pairwise_msgLt_unique (run_core _ evs hn (ev_start_fresh _ rfl rfl)).inc hv hw
-    (by unfold voteKey; rw [hh, hr, ht])
+  pairwise_msgLt_unique (run_inv _ evs (inv_init me n)).inc hv hw (by unfold voteKey; rw [hh, hr, ht])
 
-/-- **Restart dominates own votes** (partial for C02 `no_equivocation`).  `W` is whatever survived in
-    the round WAL — any list of records, i.e. any crash point and any number of surviving unsynced
-    records; `s` is the fresh state `Start` builds (any state with the node's identity).  Every own
-    vote of the current height in `W` is dominated, in (round, step) order, by what `applyRoundWAL`
-    restores; so the `Start` dispatch (stepPrevote / stepPrecommit: no re-entry of that step) cannot
-    sign a second vote for that (height, round, type). -/
-theorem restart_dominates_own_votes_partial (s : S) (W : List Rec) (v : VoteRec)
+/-- **No proposal equivocation, crashes and restarts anywhere.**  Two proposals the validator signed for
+    the same (height, round) are the same proposal (same block, same POL round). -/
+theorem no_equivocation_proposals (n me : Nat) (evs : List Event)
+    (sg sg' h r b b' : Nat) (pol pol' : Int)
+    (h1 : Msg.proposal sg h r b pol ∈ sentOf (run { n := n, me := me } evs).eff)
+    (h2 : Msg.proposal sg' h r b' pol' ∈ sentOf (run { n := n, me := me } evs).eff) :
+    b = b' ∧ pol = pol' ∧ sg = sg' := by
+  have := pairwise_msgLt_unique_msg (run_inv _ evs (inv_init me n)).inc h1 h2 rfl
+  cases this
+  exact ⟨rfl, rfl, rfl⟩
+
+/-- **C02, first sentence (full).**  For every history — any interleaving of proposals, block parts,
+    votes, timeouts, delayed BlockManager callbacks, with `crash cut k` at ANY effect boundary and any
+    number `k` of surviving unsynced WAL records, and `start` (WAL replay + Start dispatch) anywhere —
+    the validator never signs two different votes of one type for one (height, round) and never two
+    different proposals for one (height, round).  Moreover all its signed messages are signed in
+    strictly increasing (height, round, step) order. -/
+theorem no_equivocation (n me : Nat) (evs : List Event) :
+    (∀ v w, Msg.vote v ∈ sentOf (run { n := n, me := me } evs).eff →
+        Msg.vote w ∈ sentOf (run { n := n, me := me } evs).eff →
+        v.height = w.height → v.round = w.round → v.typ = w.typ → v = w) ∧
+    (∀ a b, a ∈ sentOf (run { n := n, me := me } evs).eff → b ∈ sentOf (run { n := n, me := me } evs).eff →
+        msgKey a = msgKey b → a = b) ∧
+    (sentOf (run { n := n, me := me } evs).eff).Pairwise msgLt :=
+  ⟨fun v w hv hw hh hr ht => no_equivocation_votes n me evs v w hv hw hh hr ht,
+   fun _ _ ha hb hk => pairwise_msgLt_unique_msg (run_inv _ evs (inv_init me n)).inc ha hb hk,
+   (run_inv _ evs (inv_init me n)).inc⟩
+
+/-- **Durable before send, at every effect boundary.**  For every history and every prefix `p` of the
+    effect trace (= every possible crash point), each signed message handed to the network within that
+    prefix is in the SYNCED part of the round WAL of that prefix. -/
+theorem durable_before_send (n me : Nat) (evs : List Event) (p : Nat) (m : Msg)
+    (hm : m ∈ sentOf ((run { n := n, me := me } evs).eff.take p)) :
+    Rec.msg m ∈ walDurable .round ((run { n := n, me := me } evs).eff.take p) :=
+  (run_inv _ evs (inv_init me n)).tr.dbs p m hm
+
+/-- the validator signs votes only for heights up to one above its last finalized block, at every
+    effect boundary, and only with its own index -/
+theorem votes_height_bound (n me : Nat) (evs : List Event) (p : Nat) (v : VoteRec)
+    (hv : Msg.vote v ∈ sentOf ((run { n := n, me := me } evs).eff.take p)) :
+    msgHeight (.vote v) ≤ lastFinalizedHeight ((run { n := n, me := me } evs).eff.take p) + 1 :=
+  (run_inv _ evs (inv_init me n)).tr.hb p _ hv
+
+/-- **Restart dominates own votes.**  `W` is whatever survived in the round WAL — any list of records.
+    Every own vote of the current height in `W` is dominated, in (round, step) order, by what
+    `applyRoundWAL` restores. -/
+theorem restart_dominates_own_votes (s : S) (W : List Rec) (v : VoteRec)
     (hv : Rec.msg (.vote v) ∈ W) (hh : v.height = s.height) (hm : v.signer = s.me) (hn : s.me < s.n) :
     le2 (v.round, mstepOf v.typ) ((applyRoundWAL s W).round, (applyRoundWAL s W).step) :=
   applyRoundWAL_dominates s W v hv hh hm hn
@@ -46,7 +80,15 @@ theorem replay_monotone (s : S) (W : List Rec) :
     le2 (s.round, s.step) ((applyRoundWAL s W).round, (applyRoundWAL s W).step) :=
   applyRoundWAL_keep s W
 
-/-- non-vacuity: a WAL with an own prevote and an own precommit of round 2 restores (2, precommit) -/
+/-- non-vacuity: a history with a crash in the middle of an event (cut inside sendVote: the WAL write
+    and sync happened, the send did not) and a restart; the restarted validator does not sign the
+    prevote again -/
+example :
+    let evs : List Event := [.start, .proposal 1 1 0 9 (-1), .blockPart 1 9, .async, .crash 2 0, .start,
+      .timeout 3, .timeout 5]
+    sentOf (run { n := 4, me := 0 } evs).eff = [] ∧ (run { n := 4, me := 0 } evs).step = stPrevote := by
+  decide +kernel
+
 example :
     let s : S := { n := 4, me := 0, height := 1 }
     let W : List Rec := [.msg (.vote ⟨0, 1, .prevote, 2, some 9⟩), .voteList [⟨1, 1, .prevote, 2, some 9⟩],
